@@ -763,6 +763,23 @@ struct ChanHarness : Harness
                                 "blocked write_map(%zu) did not return",
                                 wlen_req);
                 hist("accept %d", v);
+            } else
+                continue;
+            // Lost wake-up probe: a writer that is still asleep after this
+            // operation must be asleep because its request does not fit.  A
+            // spurious wake-up (always allowed) makes it re-evaluate; if it
+            // then gets through, the space was there and nobody told it.
+            if (mb->busy && op.name != "wmap" && poke_cond_waiter(wt)) {
+                settle();
+                collect();
+                if (!mb->busy)
+                    oracle_fail("C03.missed_wakeup",
+                                "after '%s' the blocked write_map(%zu) stayed "
+                                "asleep although its request could be "
+                                "satisfied (it completed as soon as it was "
+                                "woken spuriously): a notification is missing "
+                                "(cap=%zu)",
+                                line.c_str(), wlen_req, m->cap);
             }
         }
         // ---- epilogue: drain everything; the writer must get through
@@ -859,6 +876,7 @@ struct ChanHarness : Harness
         }
         bool writer_done = false;
         bool toggler_done = tops.empty();
+        int wt_id = -1;
 
         // All threads blocked: the writer sleeps in write_map and nobody is
         // left to act.  That is a violation only if the model says the writer
@@ -866,12 +884,19 @@ struct ChanHarness : Harness
         // every reader has consumed everything committed.  Otherwise the
         // workload itself starved the writer (a reader stopped for good
         // without consuming), which the property allows.
+        bool poked = false;
         set_deadlock_hook([&, m](const std::string& graph) -> bool {
             if (toggler_done && !m->accepting)
                 oracle_fail("C03.refusal_does_not_release_writer",
                             "channel_accept_writes(0) has returned but the "
                             "writer still sleeps in write_map: %s",
                             graph.c_str());
+            // give the sleeping writer one spurious wake-up: if it then
+            // completes its write_map, it slept although the request fitted
+            if (!poked && poke_cond_waiter(wt_id)) {
+                poked = true;
+                return true;
+            }
             bool all_drained = m->exact;
             for (int i = 0; i < nreaders; ++i) {
                 ReaderM& r = m->rd[i];
@@ -893,14 +918,26 @@ struct ChanHarness : Harness
         int budget = expect_progress("C03.writer_never_finishes",
                                      "writer thread completes its program",
                                      400000);
+        bool& poked_ref = poked;
         int wt = spawn("writer", [&, m] {
             for (auto& op : wops) {
                 size_t n = resolve_size(*m, op.s("n", "1"));
                 probe("n.write_maps");
                 uint64_t w0 = probe_value("k.cond_waits");
                 void* p = channel_write_map(&m->ch, n);
+                probe("n.write_maps_returned");
                 if (probe_value("k.cond_waits") > w0)
                     probe("reach.writer_blocked");
+                bool was_poked = poked_ref;
+                poked_ref = false;
+                if (was_poked && p)
+                    oracle_fail("C03.missed_wakeup",
+                                "write_map(%zu) slept while every other thread "
+                                "was blocked or finished, and completed as "
+                                "soon as it was woken spuriously: its request "
+                                "fitted but no notification reached it "
+                                "(cap=%zu)",
+                                n, m->cap);
                 if (!p) {
                     if (!m->refuse_invoked)
                         oracle_fail("C03.null_while_accepting",
@@ -934,6 +971,7 @@ struct ChanHarness : Harness
             }
             writer_done = true;
         });
+        wt_id = wt;
         std::vector<int> rts;
         for (int i = 0; i < nreaders; ++i) {
             std::string nm = "reader" + std::to_string(i);
